@@ -299,6 +299,8 @@ func genPlan(prop, tier string, seed uint64, faults bool) *Plan {
 	if tier == "quick" {
 		mo.MaxCPUs = 32
 	}
+	// offline CPUs: only where discovery itself is the subject
+	mo.AllowOffline = prop == "C16"
 	m := machine.Generate(verifrt.NewRand(verifrt.Mix(seed, "machine")), mo)
 	p := &Plan{Policy: pol, Machine: m, Order: int(verifrt.OrderSeeded)}
 	if r.Chance(0.15) {
